@@ -4,6 +4,6 @@ From Coq Require Extraction ExtrOcamlBasic.
 From SV Require Import Lib.Base Model.Addr Model.Ingress.
 Extraction Language OCaml.
 Cd "../ocaml/gen".
-Extraction "ingress_model.ml" ing_process ing_changed ing_ingress_emits ing_udp_send
+Extraction "ingress_model.ml" ing_process ing_changed ing_ingress_emits ing_ingress_emits_p ing_udp_send
   ing_tcp_connect ing_dispatch_ip ing_ip_mtu ing_frag_buffer_size.
 Cd "../../coq".
